@@ -643,6 +643,7 @@ type c34Result struct {
 	GoChecks                int
 	SegCompared, SegSkip    int
 	TarCompared, TarSkipped int   // tar streams sent through the byte-level tar model / left out (not expressible or too large)
+	TarBy                   map[string]int
 	Err                     error // harness or driver trouble: never silently dropped
 	Notes                   []string
 	fam                     string
@@ -1042,8 +1043,12 @@ func (e *c34Env) analyse(fam, format string, s *PkgSpec, data []byte, res *c34Re
 	// renders from the stream's own decoded members, and the proven Lean reader must agree with the Go reader.
 	// Streams with a member the plain header cannot express (long names, Go-only mode bits, …) are counted, not compared.
 	tarModel := func(which string, stream []byte, es []decode.Entry) {
+		if res.TarBy == nil {
+			res.TarBy = map[string]int{}
+		}
 		if len(stream) == 0 || len(stream) > e.segCap/4 {
 			res.TarSkipped++
+			res.TarBy[format+":"+which+":skipped-size"]++
 			return
 		}
 		var req, want strings.Builder
@@ -1051,17 +1056,35 @@ func (e *c34Env) analyse(fam, format string, s *PkgSpec, data []byte, res *c34Re
 		fmt.Fprintf(&want, "%d", len(es))
 		for _, en := range es {
 			if len(en.Name) > 100 || len(en.Linkname) > 100 || len(en.Uname) > 32 || len(en.Gname) > 32 || en.Mode < 0 || en.Mode >= 1<<21 ||
-				en.MTime < 0 || en.MTime >= 1<<33 || en.Size >= 1<<33 || en.Uid < 0 || en.Gid < 0 || len(en.PAX) > 0 || en.Format != "GNU" ||
+				en.MTime < 0 || en.MTime >= 1<<33 || en.Size >= 1<<33 || en.Uid < 0 || en.Gid < 0 || len(en.PAX) > 0 || (en.Format != "GNU" && en.Format != "USTAR") ||
 				strings.ContainsRune(en.Name, 0) {
 				res.TarSkipped++
+				why := "skipped-field-range"
+				if len(en.PAX) > 0 {
+					why = "skipped-pax-records"
+				} else if len(en.Name) > 100 || len(en.Linkname) > 100 {
+					why = "skipped-long-name"
+				} else if en.Format != "GNU" && en.Format != "USTAR" {
+					why = "skipped-format-" + en.Format
+				} else if en.MTime < 0 || en.MTime >= 1<<33 {
+					why = "skipped-mtime-range"
+				} else if len(en.Uname) > 32 || len(en.Gname) > 32 {
+					why = "skipped-long-owner"
+				}
+				res.TarBy[format+":"+which+":"+why]++
 				return
 			}
-			fmt.Fprintf(&req, " %s %d %d %d %d %d %d %s %s %s %s", wire.H(en.Name), en.Mode, en.Uid, en.Gid, en.Size, en.MTime, en.Type,
+			fl := "g"
+			if en.Format == "USTAR" {
+				fl = "u"
+			}
+			fmt.Fprintf(&req, " %s %s %d %d %d %d %d %d %s %s %s %s", fl, wire.H(en.Name), en.Mode, en.Uid, en.Gid, en.Size, en.MTime, en.Type,
 				wire.H(en.Linkname), wire.H(en.Uname), wire.H(en.Gname), wire.H(string(en.Body)))
-			fmt.Fprintf(&want, " %s %d %d %d %d %d %d %s %s %s %d", wire.H(en.Name), en.Mode, en.Uid, en.Gid, en.Size, en.MTime, en.Type,
+			fmt.Fprintf(&want, " %s %s %d %d %d %d %d %d %s %s %s %d", fl, wire.H(en.Name), en.Mode, en.Uid, en.Gid, en.Size, en.MTime, en.Type,
 				wire.H(en.Linkname), wire.H(en.Uname), wire.H(en.Gname), len(en.Body))
 		}
 		res.TarCompared++
+		res.TarBy[format+":"+which+":compared"]++
 		res.Checks = append(res.Checks, "tarfile", "tarread")
 		ask(req.String(), func(ans string) {
 			got, _ := wire.UnH(ans)
@@ -1323,6 +1346,13 @@ func (e *c34Env) analyse(fam, format string, s *PkgSpec, data []byte, res *c34Re
 			if i == nseg-1 {
 				res.check(sg.Facts.TrailingZeroes >= 0, "data-segment-garbage-after-end", "non-zero bytes follow the end-of-archive marker of the data segment")
 			}
+			// byte-level tar model of the segment's members (a cut segment is completed with the end marker the model
+			// writer always emits, so that what is compared is exactly the member bytes)
+			if i == nseg-1 {
+				tarModel(which, sg.Tar, sg.Entries)
+			} else {
+				tarModel(which, append(append([]byte{}, sg.Tar...), make([]byte, 1024)...), sg.Entries)
+			}
 			// model of apk.writeTgz
 			if len(sg.Tar) > e.segCap {
 				res.SegSkip++
@@ -1412,6 +1442,7 @@ func (e *c34Env) analyse(fam, format string, s *PkgSpec, data []byte, res *c34Re
 			fmt.Sprintf("c04arch %s %s", wire.B(hasScripts), c34HexList(c34EntryNames(a.Entries))))
 		res.tarFacts("package", a.Facts, true)
 		res.stdTar("package", a.Tar, len(a.Entries))
+		tarModel("package", a.Tar, a.Entries)
 		res.check(a.MtreeGz != nil, "no-mtree", "no .MTREE member")
 		res.check(a.MtreeHeaderOK, "mtree-header", ".MTREE does not start with the line #mtree")
 		res.check(len(a.Mtree) > 0 && a.Mtree[0].Path == "./.PKGINFO", "mtree-first-line-not-pkginfo", ".MTREE does not list ./.PKGINFO first")
@@ -1704,7 +1735,10 @@ func c34Script(info *nfpm.Info, sel string) string {
 }
 
 // c34Seg accumulates, over all families, what the apk-segment-model family of C04 reports.
-type c34Seg struct{ Compared, Skipped, Packages, TarCompared, TarSkipped int }
+type c34Seg struct {
+	Compared, Skipped, Packages, TarCompared, TarSkipped int
+	TarBy                                                map[string]int
+}
 
 // runFamily builds and analyses the cases on all cores (the driver is shared
 // behind its mutex) and records the results in generation order, so that the
@@ -1766,6 +1800,12 @@ func (e *c34Env) runFamily(prop, name, rule string, cases []c34Case, seg *c34Seg
 		if seg != nil {
 			seg.TarCompared += res.TarCompared
 			seg.TarSkipped += res.TarSkipped
+			if seg.TarBy == nil {
+				seg.TarBy = map[string]int{}
+			}
+			for k, v := range res.TarBy {
+				seg.TarBy[k] += v
+			}
 		}
 		if seg != nil && res.Format == "apk" && res.Built {
 			seg.Compared += res.SegCompared
